@@ -597,9 +597,16 @@ func genC01(b *builder) {
 		z = b.drawZone()
 	}
 	nt := 1 + b.n(4)
+	long := r.Intn(80) == 0 // hundreds of calls on one client: the bytes of the last are as right as those of the first
+	if long {
+		nt = 1
+	}
 	for t := 0; t < nt; t++ {
 		tk := engine.Task{Start: time.Duration(r.Intn(3)) * 10 * time.Millisecond}
 		ns := 1 + b.n(5)
+		if long {
+			ns = pick(r, 130, 257, 300, 515)
+		}
 		for s := 0; s < ns; s++ {
 			client := r.Intn(len(b.sc.Clients))
 			T := b.sc.Clients[client].Timeout
@@ -613,6 +620,16 @@ func genC01(b *builder) {
 				z.zoneArgs(op, &a)
 			}
 			st := b.callStep(client, op, a, known, b.early(T), model.ReplyOpts{})
+			if long {
+				for i := range st.Plan.Emits {
+					st.Plan.Emits[i].After = time.Duration(r.Int63n(int64(T)/64 + 1))
+				}
+				if op == model.GetDevices {
+					continue // (a whole timeout each)
+				}
+				tk.Steps = append(tk.Steps, st)
+				continue
+			}
 			b.noise(&st, T)
 			tk.Steps = append(tk.Steps, st)
 		}
@@ -964,6 +981,7 @@ func genC09(b *builder) {
 	if crowd {
 		nt = 17 + r.Intn(10) // a crowd waiting for the one port: served in turn, every one of them
 	}
+	long := !queued && r.Intn(60) == 0 // a long life: hundreds of calls on the same clients, nothing accumulates
 	for t := 0; t < nt; t++ {
 		tk := engine.Task{Start: time.Duration(r.Intn(3)) * time.Millisecond}
 		ns := 1 + b.n(6)
@@ -973,10 +991,13 @@ func genC09(b *builder) {
 		if crowd {
 			ns = 1
 		}
+		if long {
+			ns = pick(r, 130, 260, 300, 520)
+		}
 		for s := 0; s < ns; s++ {
 			client := r.Intn(len(sc.Clients))
 			T := sc.Clients[client].Timeout
-			if !queued && r.Intn(8) == 0 {
+			if !queued && !long && r.Intn(8) == 0 {
 				// the event listener in the history: started and stopped, or unable to start (port held by
 				// another process, no listen port configured)
 				ls := b.listenStep(client)
@@ -1013,7 +1034,7 @@ func genC09(b *builder) {
 				tk.Steps = append(tk.Steps, st)
 				continue
 			}
-			if crowd {
+			if crowd || (long && r.Intn(20) > 0) {
 				if rt.Path == "tcp" {
 					st.Plan.TCP = "accept"
 				}
